@@ -149,6 +149,15 @@ func (h *Hash) ToInterface() interface{} {
 
 // JSON converts this object to a JSON string.
 func (h *Hash) JSON() (string, error) {
+	return h.json(0)
+}
+
+// json is the implementation of JSON, for a hash which is the given
+// number of containers deep.
+func (h *Hash) json(depth int) (string, error) {
+	if depth > maxNesting {
+		return "", fmt.Errorf("value is nested more than %d levels deep", maxNesting)
+	}
 
 	// Get the list of entries, sorted by key-name.
 	entries := h.Entries()
@@ -166,7 +175,7 @@ func (h *Hash) JSON() (string, error) {
 		}
 
 		// OK we can cast it, get the value
-		tmp, err := helper.JSON()
+		tmp, err := jsonNested(helper, depth+1)
 		if err != nil {
 			return "", err
 		}
